@@ -153,7 +153,23 @@ func main() {
 	overlayFile := flag.String("overlay", "", "JSON file {path: content} applied as in-memory overlay (self-tests only)")
 	child := flag.Bool("child", false, "internal: print obligations as JSON, no evidence")
 	list := flag.Bool("list", false, "list properties")
+	dumpFuncs := flag.Bool("dump-funcs", false, "print the qualified names of all module functions (baseline for helper inlining)")
 	flag.Parse()
+	if *dumpFuncs {
+		os.Setenv("PINTSA_NO_INLINE", "1")
+		p, err := LoadProg(*repo, false, "", nil)
+		if err != nil {
+			fmt.Fprintln(os.Stderr, err)
+			os.Exit(2)
+		}
+		var names []string
+		for _, fi := range p.AllFuncs() {
+			names = append(names, fi.Name)
+		}
+		sort.Strings(names)
+		fmt.Println(strings.Join(names, "\n"))
+		return
+	}
 	if *list {
 		ids := []string{}
 		for id := range props {
